@@ -40,6 +40,29 @@ enum Speed {
     Middle,
 }
 
+/// a hidden value between visible ones
+#[derive(ValueEnum, Clone, Debug, PartialEq, Eq)]
+enum Level {
+    Low,
+    #[value(hide = true, alias = "mid")]
+    Medium,
+    High,
+    #[value(hide = true)]
+    Extreme,
+    #[value(name = "max")]
+    Maximum,
+}
+const LEVEL_DECLARED: &[(&str, Level)] = &[("low", Level::Low), ("medium", Level::Medium), ("mid", Level::Medium), ("high", Level::High), ("extreme", Level::Extreme), ("max", Level::Maximum)];
+
+#[derive(Parser, Debug)]
+#[command(name = "prog")]
+struct LevelCli {
+    #[arg(long, value_enum, default_value_t = Level::High)]
+    level: Level,
+    #[arg(long, value_parser = clap::value_parser!(Level))]
+    other: Option<Level>,
+}
+
 /// every spelling the declarations above give (written out by hand, not read back from clap)
 const SPEED_DECLARED: &[(&str, Speed)] = &[
     ("fast", Speed::Fast),
@@ -646,6 +669,26 @@ fn check_value_enum() -> Vec<(String, String)> {
             Ok(c) if &c.speed == v => {}
             Ok(c) => bad.push(("a declared value-enum name or alias does not map to its variant".into(), format!("--speed {} -> {:?}", n, c.speed))),
             Err(e) => bad.push(("a declared value-enum name or alias does not map to its variant".into(), format!("--speed {} -> {}", n, kind(&e)))),
+        }
+    }
+    for (n, v) in LEVEL_DECLARED {
+        match Level::from_str(n, false) {
+            Ok(x) if &x == v => {}
+            other => bad.push(("a declared value-enum name or alias does not map to its variant".into(), format!("Level {} -> {:?}", n, other))),
+        }
+        for flag in ["--level", "--other"] {
+            match LevelCli::try_parse_from(["prog", flag, n]) {
+                Ok(c) => {
+                    let got = if flag == "--level" { Some(c.level.clone()) } else { c.other.clone() };
+                    if got.as_ref() != Some(v) {
+                        bad.push(("a declared value-enum name or alias does not map to its variant".into(), format!("{} {} -> {:?}", flag, n, got)));
+                    }
+                    if flag == "--other" && c.level != Level::High {
+                        bad.push(("a value-enum default does not map to its variant".into(), format!("default_value_t = High -> {:?}", c.level)));
+                    }
+                }
+                Err(e) => bad.push(("a declared value-enum name or alias does not map to its variant".into(), format!("{} {} -> {}", flag, n, kind(&e)))),
+            }
         }
     }
     for w in ["fas", "quic", "", "Fast", "mi", "middle", "hal"] {
